@@ -32,6 +32,10 @@ func Equal(x, y any) bool {
 func equalValue(x, y reflect.Value) bool {
 	// Copied from src/reflect/deepequal.go, omitting the visited check (because JSON
 	// values are trees).
+
+	// Step through interfaces and pointers: the JSON value is the one they hold,
+	// and a nil interface or pointer is JSON null.
+	x, y = indirect(x), indirect(y)
 	if !x.IsValid() || !y.IsValid() {
 		return x.IsValid() == y.IsValid()
 	}
@@ -42,13 +46,31 @@ func equalValue(x, y reflect.Value) bool {
 	if ok1 && ok2 {
 		return rx.Cmp(ry) == 0
 	}
-	if x.Kind() != y.Kind() {
+	if ok1 != ok2 {
+		// A number never equals a non-number. In particular a json.Number
+		// does not equal the string that spells it.
 		return false
 	}
 	switch x.Kind() {
-	case reflect.Array:
+	case reflect.Array, reflect.Slice:
+		// Arrays and slices of any element type are JSON arrays.
+		if y.Kind() != reflect.Array && y.Kind() != reflect.Slice {
+			return false
+		}
+		if isNilSlice(x) != isNilSlice(y) {
+			return false
+		}
 		if x.Len() != y.Len() {
 			return false
+		}
+		if x.Kind() == reflect.Slice && x.Type() == y.Type() {
+			if x.UnsafePointer() == y.UnsafePointer() {
+				return true
+			}
+			// Special case for []byte, which is common.
+			if x.Type().Elem().Kind() == reflect.Uint8 {
+				return bytes.Equal(x.Bytes(), y.Bytes())
+			}
 		}
 		for i := range x.Len() {
 			if !equalValue(x.Index(i), y.Index(i)) {
@@ -56,36 +78,42 @@ func equalValue(x, y reflect.Value) bool {
 			}
 		}
 		return true
-	case reflect.Slice:
+	case reflect.Map:
+		// Maps with a string key of any type and any element type are JSON objects.
+		if y.Kind() != reflect.Map {
+			return false
+		}
 		if x.IsNil() != y.IsNil() {
 			return false
 		}
 		if x.Len() != y.Len() {
 			return false
 		}
-		if x.UnsafePointer() == y.UnsafePointer() {
+		xkt, ykt := x.Type().Key(), y.Type().Key()
+		if xkt != ykt && (xkt.Kind() != reflect.String || ykt.Kind() != reflect.String) {
+			return false
+		}
+		if x.Type() == y.Type() && x.UnsafePointer() == y.UnsafePointer() {
 			return true
 		}
-		// Special case for []byte, which is common.
-		if x.Type().Elem().Kind() == reflect.Uint8 && x.Type() == y.Type() {
-			return bytes.Equal(x.Bytes(), y.Bytes())
-		}
-		for i := range x.Len() {
-			if !equalValue(x.Index(i), y.Index(i)) {
+		iter := x.MapRange()
+		for iter.Next() {
+			k := iter.Key()
+			if xkt != ykt {
+				k = k.Convert(ykt)
+			}
+			vx := iter.Value()
+			vy := y.MapIndex(k)
+			if !vy.IsValid() || !equalValue(vx, vy) {
 				return false
 			}
 		}
 		return true
-	case reflect.Interface:
-		if x.IsNil() || y.IsNil() {
-			return x.IsNil() == y.IsNil()
-		}
-		return equalValue(x.Elem(), y.Elem())
-	case reflect.Pointer:
-		if x.UnsafePointer() == y.UnsafePointer() {
-			return true
-		}
-		return equalValue(x.Elem(), y.Elem())
+	}
+	if x.Kind() != y.Kind() {
+		return false
+	}
+	switch x.Kind() {
 	case reflect.Struct:
 		t := x.Type()
 		if t != y.Type() {
@@ -97,25 +125,6 @@ func equalValue(x, y reflect.Value) bool {
 				continue
 			}
 			if !equalValue(x.FieldByIndex(sf.Index), y.FieldByIndex(sf.Index)) {
-				return false
-			}
-		}
-		return true
-	case reflect.Map:
-		if x.IsNil() != y.IsNil() {
-			return false
-		}
-		if x.Len() != y.Len() {
-			return false
-		}
-		if x.UnsafePointer() == y.UnsafePointer() {
-			return true
-		}
-		iter := x.MapRange()
-		for iter.Next() {
-			vx := iter.Value()
-			vy := y.MapIndex(iter.Key())
-			if !vy.IsValid() || !equalValue(vx, vy) {
 				return false
 			}
 		}
@@ -136,6 +145,20 @@ func equalValue(x, y reflect.Value) bool {
 	default:
 		panic(fmt.Sprintf("unsupported kind: %s", x.Kind()))
 	}
+}
+
+// indirect steps through interfaces and pointers.
+// It returns the invalid Value for a nil interface or pointer.
+func indirect(v reflect.Value) reflect.Value {
+	for v.Kind() == reflect.Pointer || v.Kind() == reflect.Interface {
+		v = v.Elem()
+	}
+	return v
+}
+
+// isNilSlice reports whether v is a nil slice. (An array is never nil.)
+func isNilSlice(v reflect.Value) bool {
+	return v.Kind() == reflect.Slice && v.IsNil()
 }
 
 // hashValue adds v to the data hashed by h. v must not have cycles.
